@@ -1,14 +1,16 @@
 // C05 correspondence harness, family unit `grid` (see harness/c05_common.hpp and harness/c05.cpp)
 #include "c05_common.hpp"
 
+#include <fcppt/array/init.hpp>
+#include <fcppt/array/object.hpp>
 #include <fcppt/container/grid/apply.hpp>
+#include <fcppt/container/grid/fill.hpp>
+#include <fcppt/container/grid/static_row.hpp>
 #include <fcppt/container/grid/dim.hpp>
 #include <fcppt/container/grid/map.hpp>
 #include <fcppt/container/grid/object.hpp>
 #include <fcppt/container/grid/pos.hpp>
 #include <fcppt/container/grid/resize.hpp>
-#include <fcppt/container/tree/map.hpp>
-#include <fcppt/container/tree/object.hpp>
 
 namespace c05
 {
@@ -92,120 +94,140 @@ std::string op_grid(std::string const &_op, line_t const &L)
   throw bad_op{};
 }
 
-// ---------------------------------------------------------------- tree (root value + leaf children)
+
+// ---------------------------------------------------------------- grid: constructors, assignment, fill
 
 template <typename T>
-using tree = fcppt::container::tree::object<T>;
-
-template <typename T>
-tree<T> mk_tree(arg_t const &_a)
+std::string op_grid_more(std::string const &_op, line_t const &L)
 {
-  need(!_a.ids.empty());
-  tree<T> t{T{_a.ids[0]}};
-  for (std::size_t i = 1; i < _a.ids.size(); ++i)
-    t.push_back(T{_a.ids[i]});
-  return t;
-}
-template <typename T>
-void mark(tree<T> &_t)
-{
-  mark(_t.value());
-  for (auto &c : _t)
-    mark(c);
-}
-template <typename T>
-void tree_add(slots_t &_s, tree<T> const &_t)
-{
-  _s.add(_t.value());
-  for (auto const &c : _t)
-    tree_add(_s, c);
-}
-template <typename T>
-std::string tree_slots(tree<T> const &_t)
-{
-  slots_t s;
-  tree_add(s, _t);
-  return s.str();
-}
-
-template <typename T>
-std::string op_tree(std::string const &_op, line_t const &L)
-{
-  if (_op == "treector")
+  using dim = typename grid2<T>::dim;
+  using pos = typename grid2<T>::pos;
+  auto const dims{[&L](std::size_t i)
+                  {
+                    need(L.par.size() >= i + 2 && L.par[i] >= 0 && L.par[i + 1] >= 0 && L.par[i] <= 8 && L.par[i + 1] <= 8);
+                    return dim{static_cast<std::size_t>(L.par[i]), static_cast<std::size_t>(L.par[i + 1])};
+                  }};
+  if (_op == "gridctorfn")
   {
-    need(L.args.size() == 1 && L.n(0) == 1 && L.par.empty());
-    T x{L.args[0].ids[0]};
-    mark(x);
+    need(L.args.empty() && L.par.size() == 2);
+    dim const d{dims(0)};
+    std::size_t const w{d.w()};
     g_log.clear();
-    tree<T> const r{with_cat<T::copyable>(L.cat(0), x, [](auto &&v) { return tree<T>{FWD(v)}; })};
+    grid2<T> const r{d, [w](pos const p) { return T{1000 + static_cast<int>(p.y() * w + p.x())}; }};
     event_log const log{g_log};
-    slots_t sx;
-    sx.add(x);
-    return finish("-", tree_slots(r), {sx.str()}, log);
+    return finish("-", slots(r), {}, log);
   }
-  if (_op == "treepushval" || _op == "treepushtree")
+  if (_op == "gridctorvalue")
   {
-    need(L.args.size() == 2 && L.cat(0) == 'i' && L.n(1) == 1 && L.par.empty());
-    auto t{mk_tree<T>(L.args[0])};
-    mark(t);
-    if (_op == "treepushval")
+    need(L.args.size() == 1 && L.n(0) == 1 && L.cat(0) == 'c' && L.par.size() == 2);
+    if constexpr (T::copyable)
     {
-      T x{L.args[1].ids[0]};
-      mark(x);
+      T const x{L.args[0].ids[0]};
       g_log.clear();
-      switch (L.cat(1))
-      {
-      case 'r':
-        t.push_back(std::move(x));
-        break;
-      case 'l':
-        if constexpr (T::copyable)
-          t.push_back(x);
-        else
-          throw bad_op{};
-        break;
-      case 'c':
-        if constexpr (T::copyable)
-          t.push_back(std::as_const(x));
-        else
-          throw bad_op{};
-        break;
-      default:
-        throw bad_op{};
-      }
+      grid2<T> const r{dims(0), x};
       event_log const log{g_log};
       slots_t sx;
       sx.add(x);
-      return finish("-", "-", {tree_slots(t), sx.str()}, log);
+      return finish("-", slots(r), {sx.str()}, log);
     }
-    need(L.cat(1) == 'r');
-    tree<T> c{T{L.args[1].ids[0]}};
-    mark(c);
-    g_log.clear();
-    t.push_back(std::move(c));
-    event_log const log{g_log};
-    return finish("-", "-", {tree_slots(t), tree_slots(c)}, log);
+    else
+      throw bad_op{};
   }
-  if (_op == "treerelease")
+  if (_op == "gridstaticrow2")
   {
-    need(L.args.size() == 1 && L.cat(0) == 'i' && L.par.size() == 1 && L.par[0] >= 0 && static_cast<std::size_t>(L.par[0]) + 1 < L.n(0));
-    auto t{mk_tree<T>(L.args[0])};
-    mark(t);
+    need(L.args.size() == 2 && L.n(0) == 1 && L.n(1) == 1 && L.par.empty());
+    T x{L.args[0].ids[0]};
+    T y{L.args[1].ids[0]};
+    mark(x);
+    mark(y);
     g_log.clear();
-    tree<T> const r{t.release(std::next(t.begin(), L.par[0]))};
+    auto const r{with_cats2<T::copyable>(L, x, y, [](auto &&a, auto &&b) { return fcppt::container::grid::static_row(FWD(a), FWD(b)); })};
     event_log const log{g_log};
-    return finish("-", tree_slots(r), {tree_slots(t)}, log);
+    slots_t sx, sy;
+    sx.add(x);
+    sy.add(y);
+    return finish("-", slots(r.impl()), {sx.str(), sy.str()}, log);
   }
-  if (_op == "treemap")
+  if (_op == "gridctorrows2")
   {
-    need(L.args.size() == 1 && L.par.empty());
-    auto t{mk_tree<T>(L.args[0])};
-    mark(t);
+    // two rows of the same length (1 or 2)
+    need(L.args.size() == 2 && L.n(0) == L.n(1) && (L.n(0) == 1 || L.n(0) == 2) && L.par.empty());
+    auto const go{[&L](auto N) -> std::string
+                  {
+                    constexpr std::size_t n{decltype(N)::value};
+                    using row = fcppt::array::object<T, n>;
+                    auto const mk{[](arg_t const &a)
+                                  { return fcppt::array::init<row>([&a]<std::size_t I>(std::integral_constant<std::size_t, I>) { return T{a.ids[I]}; }); }};
+                    row r0{mk(L.args[0])};
+                    row r1{mk(L.args[1])};
+                    for (auto &e : r0.impl())
+                      mark(e);
+                    for (auto &e : r1.impl())
+                      mark(e);
+                    g_log.clear();
+                    // only rvalue rows: the enable_if of the constructor applies is_static_row to `Arg` with its reference
+                    need(L.cat(0) == 'r' && L.cat(1) == 'r');
+                    grid2<T> const r{std::move(r0), std::move(r1)};
+                    event_log const log{g_log};
+                    return finish("-", slots(r), {slots(r0.impl()), slots(r1.impl())}, log);
+                  }};
+    return L.n(0) == 1 ? go(std::integral_constant<std::size_t, 1>{}) : go(std::integral_constant<std::size_t, 2>{});
+  }
+  if (_op == "gridctorgrid")
+  {
+    need(L.args.size() == 1 && L.par.size() == 2);
+    auto g{mk_grid<T>(L.args[0], L.par[0], L.par[1])};
+    mark(g);
     g_log.clear();
-    tree<T> const r{
-        with_cat<true>(L.cat(0), t, [](auto &&x) { return fcppt::container::tree::map<tree<T>>(FWD(x), [](T const &v) { return v.derive(1); }); })};
+    grid2<T> const r{with_cat<T::copyable>(L.cat(0), g, [](auto &&x) { return grid2<T>{FWD(x)}; })};
     event_log const log{g_log};
-    return finish("-", tree_slots(r), {tree_slots(t)}, log);
+    return finish("-", slots(r), {slots(g)}, log);
+  }
+  if (_op == "gridassign")
+  {
+    // grids of one row
+    need(L.args.size() == 2 && L.cat(0) == 'i' && L.par.empty());
+    auto g{mk_grid<T>(L.args[0], static_cast<int>(L.n(0)), L.n(0) == 0 ? 0 : 1)};
+    mark(g);
+    auto h{mk_grid<T>(L.args[1], static_cast<int>(L.n(1)), L.n(1) == 0 ? 0 : 1)};
+    mark(h);
+    g_log.clear();
+    with_cat<T::copyable>(
+        L.cat(1),
+        h,
+        [&g](auto &&x)
+        {
+          g = FWD(x);
+          return 0;
+        });
+    event_log const log{g_log};
+    return finish("-", "-", {slots(g), slots(h)}, log);
+  }
+  if (_op == "gridselfassign")
+  {
+    need(L.args.size() == 1 && L.cat(0) == 'i' && L.par.size() == 1 && (L.par[0] == 0 || L.par[0] == 1));
+    auto g{mk_grid<T>(L.args[0], static_cast<int>(L.n(0)), L.n(0) == 0 ? 0 : 1)};
+    mark(g);
+    grid2<T> &alias{g};
+    g_log.clear();
+    if (L.par[0] == 1)
+      g = std::move(alias);
+    else if constexpr (T::copyable)
+      g = alias;
+    else
+      throw bad_op{};
+    event_log const log{g_log};
+    return finish("-", "-", {slots(g)}, log);
+  }
+  if (_op == "gridfill")
+  {
+    need(L.args.size() == 1 && L.cat(0) == 'i' && L.par.empty());
+    auto g{mk_grid<T>(L.args[0], static_cast<int>(L.n(0)), L.n(0) == 0 ? 0 : 1)};
+    mark(g);
+    g_log.clear();
+    fcppt::container::grid::fill(g, [](pos const p) { return T{1000 + static_cast<int>(p.x())}; });
+    event_log const log{g_log};
+    return finish("-", "-", {slots(g)}, log);
   }
   throw bad_op{};
 }
@@ -219,16 +241,9 @@ bool dispatch(std::string const &_op, line_t const &L, std::string &_out)
     return (_out = op_grid<T>(_op, L), true);
   if (_op == "gridresize")
     return (_out = op_grid<T>(_op, L), true);
-  if (_op == "treector")
-    return (_out = op_tree<T>(_op, L), true);
-  if (_op == "treepushval")
-    return (_out = op_tree<T>(_op, L), true);
-  if (_op == "treepushtree")
-    return (_out = op_tree<T>(_op, L), true);
-  if (_op == "treerelease")
-    return (_out = op_tree<T>(_op, L), true);
-  if (_op == "treemap")
-    return (_out = op_tree<T>(_op, L), true);
+  if (_op == "gridctorfn" || _op == "gridctorvalue" || _op == "gridstaticrow2" || _op == "gridctorrows2" || _op == "gridctorgrid" ||
+      _op == "gridassign" || _op == "gridselfassign" || _op == "gridfill")
+    return (_out = op_grid_more<T>(_op, L), true);
   return false;
 }
 }
